@@ -48,6 +48,7 @@ pub static INFO: PropInfo = PropInfo {
         ("fill.partial", 200),
         ("fill.full", 200),
         ("noreply.invalid", 2000),
+        ("noreply.token-used-from-other-address.full", 20),
         ("from.unknown", 1000),
         ("from.pending", 1000),
     ],
@@ -180,6 +181,10 @@ fn episode_inner(ctx: &Ctx, out: &mut Outcome, run_seed: u64, rr: &mut Rng, budg
     let mut last_request_from: HashMap<SocketAddr, Vec<u8>> = HashMap::new();
     let mut used_responses: Vec<(SocketAddr, Vec<u8>)> = Vec::new();
     let mut pending_tok: HashMap<SocketAddr, usize> = HashMap::new();
+    // token index -> the address whose request with that token the server answered first; from then on
+    // the token is "already used" and not valid from any other address (fewer than 2048 tokens per run,
+    // so the server's own table never evicts)
+    let mut bound_addr: HashMap<usize, SocketAddr> = HashMap::new();
     let n_ops = *budget;
     for opi in 0..n_ops {
         *budget -= 1;
@@ -466,6 +471,11 @@ fn episode_inner(ctx: &Ctx, out: &mut Outcome, run_seed: u64, rr: &mut Rng, budg
         };
         match res.outgoing() {
             None => {
+                if let Some(i) = valid_tok {
+                    if bound_addr.get(&i).map_or(false, |b| *b != from) {
+                        out.count(&format!("noreply.token-used-from-other-address.{fill_name}"));
+                    }
+                }
                 if valid_tok.is_none() && !valid_resp {
                     out.count("noreply.invalid");
                 } else {
@@ -482,6 +492,20 @@ fn episode_inner(ctx: &Ctx, out: &mut Outcome, run_seed: u64, rr: &mut Rng, budg
                     out.violation(ctx, &format!("C19/reply-not-smaller/{wire}"), "the reply is strictly smaller than the datagram received",
                         format!("{}-byte datagram ({}) answered with {} bytes", d.len(), inp.class, reply.len()), replay("reply not smaller", &history));
                     return Ended::Violation;
+                }
+                if let Some(i) = valid_tok {
+                    match bound_addr.get(&i) {
+                        Some(b) if *b != from && !valid_resp => {
+                            out.violation(ctx, "C19/reply-to-invalid/token-used-from-other-address", "datagrams that carry neither a valid connect token nor a valid response get no answer",
+                                format!("request with a token the server already answered at {} was presented from {} (server {}) and answered with {} bytes ({})", b, from, fill_name, reply.len(), res.kind()),
+                                replay("reply to a token already used from another address", &history));
+                            return Ended::Violation;
+                        }
+                        Some(_) => {}
+                        None => {
+                            bound_addr.insert(i, from);
+                        }
+                    }
                 }
                 if valid_tok.is_none() && !valid_resp {
                     out.violation(ctx, &format!("C19/reply-to-invalid/{}", inp.class), "datagrams that carry neither a valid connect token nor a valid response get no answer",
